@@ -72,6 +72,13 @@ func (c *concurrencyOperator) Next(ctx context.Context) ([]model.StepVector, err
 
 func (c *concurrencyOperator) pull(ctx context.Context) {
 	defer close(c.buffer)
+	// A panic below (for example inside a storage callback) must not take down
+	// the process: hand it to the consumer as this query's error.
+	defer func() {
+		if r := recover(); r != nil {
+			c.buffer <- maybeStepVector{err: panicToError(r)}
+		}
+	}()
 
 	for {
 		select {
